@@ -358,8 +358,28 @@ CDNA_KINDS = ['cds_mutator_noncoding', 'partial_cds_region', 'region_exceeds_tar
 
 def run_case(d):
     r = sge.run_design(d)
-    return {'exit': r['exit'], 'exc': r['exc'], 'msg': (r.get('exc_msg') or '')[:160], 'files': sorted(r['files']),
-            'critical': [m for lvl, m in r['log'] if lvl == 'CRITICAL'][:2]}
+    out = {'exit': r['exit'], 'exc': r['exc'], 'msg': (r.get('exc_msg') or '')[:160], 'files': sorted(r['files']),
+           'critical': [m for lvl, m in r['log'] if lvl == 'CRITICAL'][:2]}
+    c2 = d.get('clone_contig')
+    if c2 and r['exit'] == 0:
+        # the design repeated on a second contig: every library file has a twin with the same content up to the contig and gene names
+        c1 = d['contig']
+        bad = []
+        for f, txt in r['files'].items():
+            if f.startswith(c1 + '_') and f.endswith(LIB):
+                twin = r['files'].get(c2 + f[len(c1):])
+                if twin is None:
+                    bad.append(f'{c2 + f[len(c1):]} missing')
+                else:
+                    g = d.get('gtf') or {}
+                    t2 = twin.replace(c2, c1)
+                    for k in ('gene_id', 'transcript_id'):
+                        if g.get(k):
+                            t2 = t2.replace(g[k] + '_2', g[k])
+                    if t2 != txt:
+                        bad.append(f'{f} differs from its twin on {c2}')
+        out['twin_problems'] = bad[:4]
+    return out
 
 
 def offending_name(d, idx):
@@ -406,6 +426,11 @@ def judge_valid(ctx: Ctx, d, r):
                       {'surface': 'file', 'design': d, 'exc': r['exc'], 'msg': r['msg'], 'critical': r['critical']})
     else:
         ctx.nontriv(('valid', common.sha(d)))
+        if d.get('clone_contig'):
+            ctx.count('valid_two_annotated_contigs')
+            if r.get('twin_problems'):
+                ctx.violation('spec_violation', f"design repeated on a second contig: {r['twin_problems']}",
+                              {'surface': 'file', 'design': d, 'problems': r['twin_problems']})
 
 
 def base_design(rng, i):
@@ -427,6 +452,10 @@ def valid_design(rng, i):
         # a background deletion that removes an end of a targeton or of a region leaves nothing to design there: not a valid design
         # (nor, since the extension lengths are kept as lengths in the background coordinate system, one inside region 1 or 3)
         if not d.get('bg') or (bg.lift_design(d) is not None and not _indel_in_flank(d)):
+            if i % 5 == 0:
+                # the same design once more on a second contig (its own gene, PAM edits, custom and background records): still valid
+                d['extra_contigs'] = {}
+                d['clone_contig'] = 'chr2'
             return d
     d.pop('bg', None)
     d.pop('mask', None)
